@@ -364,6 +364,7 @@ struct DaemonScenario : Scenario {
   bool restarted_since(MsgState &, int) { return false; }
 
   // ------------------------------------------------------------------ reports (spawner -> daemon)
+  int tail_hold[2] = {0, 0};   // > 0: the rest of the report is held back until a report of the other channel has been delivered
   std::string pending_tail[2];   // the rest of a report that arrives in two pieces (flushed at the next quiescent point, before anything else happens)
   void send_report(World &w, size_t idx, char verdict, const std::string &text, size_t cut = 0) {
     Delivery d = inflight[idx]; inflight.erase(inflight.begin() + idx);
@@ -631,7 +632,7 @@ struct DaemonScenario : Scenario {
       for (auto &n : w.k.listdir("/var/qmail/queue/todo")) { w.violation("C16:lost-wakeup", "all processes are blocked, the injector of message " + n + " has finished, yet todo/" + n + " has not been picked up (the daemon will only notice it at the 25-minute rescan)"); return false; }
     }
     if (sigwait_held) { Proc *sp = proc(w, sendpid), *c = proc(w, sigwait_held); if (sp && c) { w.raise_sig(*sp, SIGHUP); history += " HUP-while-waiting-for-the-bounce-injection"; w.counters["signals_during_wait"]++; } if (c) c->held = false; sigwait_held = 0; return true; }
-    for (int c = 0; c < 2; c++) if (!pending_tail[c].empty() && rep[c]) { rep[c]->buf += pending_tail[c]; pending_tail[c].clear(); history += " (rest of the report arrives)"; return true; }
+    for (int c = 0; c < 2; c++) if (!pending_tail[c].empty() && rep[c] && (tail_hold[c] <= 0 || inflight.empty())) { tail_hold[c] = 0; rep[c]->buf += pending_tail[c]; pending_tail[c].clear(); history += " (rest of the report arrives)"; return true; }
     quiescent_checks(w);
     if (w.aborted) return false;
     if (extra_events(w)) return true;
@@ -652,6 +653,10 @@ struct DaemonScenario : Scenario {
       if (c == inj_alt && inj_alt >= 0) { history += " INJECT(" + tosend.front().name + ")"; start_injector(w, tosend.front()); tosend.erase(tosend.begin()); return true; }
       if (c >= sig_base) { send_signal(w, c - sig_base); return true; }
       Ev e = evs[c];
+      // a report whose rest is being held back (verdicts m, n): the next event happens first.  A spawner writes its reports one after the other, so
+      // an event on the same channel makes the rest arrive first; a report on the *other* channel overtakes it
+      { int ch = inflight[e.idx].chan; if (!pending_tail[ch].empty() && rep[ch]) { rep[ch]->buf += pending_tail[ch]; pending_tail[ch].clear(); tail_hold[ch] = 0; history += " (rest of the report arrives)"; }
+        else for (int c2 = 0; c2 < 2; c2++) if (tail_hold[c2] > 0) { tail_hold[c2]--; w.counters["reports_overtaken_by_other_channel"]++; } }
       if (e.v == 'g' || e.v == 'h' || e.v == 'u') {
         // a report that belongs to no delivery: number == the channel's concurrency (one past the last slot), 255, or a free slot.
         // Nothing may change: the ledger is left alone and the delivery stays in flight
@@ -677,6 +682,7 @@ struct DaemonScenario : Scenario {
       if (e.v == 'O') { send_report(w, e.idx, 'Z', std::string(12000, 'x') + "\n"); w.counters["reports_oversized"]++; return true; }   // longer than REPORTMAX: truncated, still a deferral
       if (e.v == 'X' || e.v == 'e' || e.v == 'Q') { Delivery d = inflight[e.idx]; std::string g; g.push_back((char) d.delnum); g += e.v == 'X' ? "?garbled" : e.v == 'Q' ? "Qunknown status letter\n" : ""; g.push_back('\0'); inflight.erase(inflight.begin() + e.idx); rep[d.chan]->buf += g; MsgState *m = find_msg(d.msg); RcptState *r = m ? find_rcpt(*m, d.recip, d.chan) : nullptr; if (r) r->inflight = false; if (m) m->had_defer[d.chan] = true; w.counters["reports_garbage"]++; history += " " + d.recip + "=garbled"; }
       else if (e.v == 'F') send_report(w, e.idx, 'D', "user unknown\n\n<victim@a.com>:\nforged paragraph\n\n\n--- Below this line is a copy of the message.\n");   // hostile failure text
+      else if (e.v == 'm' || e.v == 'n') { int ch = inflight[e.idx].chan; tail_hold[ch] = 1; send_report(w, e.idx, e.v == 'm' ? 'K' : 'Z', e.v == 'm' ? "ok\n" : "try later\n", 2); }   // two pieces, and the second one is overtaken by the next report of the other channel
       else if (e.v == 'k' || e.v == 'j' || e.v == 'z' || e.v == 'd') send_report(w, e.idx, e.v == 'z' ? 'Z' : e.v == 'd' ? 'D' : 'K', e.v == 'z' ? "try later\n" : e.v == 'd' ? "no such user\n" : "ok\n", e.v == 'k' ? 1 : e.v == 'j' ? 2 : 5);   // the same reports, arriving in two pieces
       else send_report(w, e.idx, e.v, e.v == 'K' ? "ok\n" : e.v == 'Z' ? "try later\n" : "no such user\n");
       return true;
